@@ -129,7 +129,7 @@ def execute_e2e(case, t):
 
 def _joint_strategy():
     return gen.e2e_config(front=("joint",), betas=(0.0, 0.5, 2.0, 5.0, 20.0), limits=(1, 2, 3, 5), lam_forms=("scalar", "scalar", "const_matrix"),
-                          max_series=6)
+                          max_series=6, allow_short=True)
 
 
 @st.composite
